@@ -1086,7 +1086,7 @@ func Run(c *vh.Ctx) {
 		r.flush()
 		return
 	}
-	c.Res.Rule = "one case = one method call `$x->m(args)` on a receiver in a variable; result and receiver afterwards (json_encode) compared with the Lean model (correspondence) and with an independent Go reference of the documented semantics (property). Arrays: every receiver up to length L over {1,'a',[2,[3]]} x all 23 methods x every argument tuple over {omitted,null,-len-1,-len,-1,0,1,len-1,len,len+1} x 0..3 variadic items x every named callback (element/index/array); then seeded receivers of length 0..6 (some up to 16) over ints, strings, null, booleans and nested lists. Strings: every text up to length 3 over {a,' ',é} plus seeded texts of 0..12 characters (ASCII and multi-byte) x 10 methods x argument sets (substring: every start/end tuple). non-trivial = non-empty receiver and (arguments or a callback or a mutating method); distinct = distinct concrete case"
+	c.Res.Rule = "one case = one method call `$x->m(args)` on a receiver in a variable; result and receiver afterwards (json_encode) compared with the Lean model (correspondence) and with an independent Go reference of the documented semantics (property). Arrays: every receiver up to length L over {1,'a',[2,[3]]} x all 23 methods x every argument tuple over {omitted,null,-len-1,-len,-1,0,1,len-1,len,len+1} x 0..3 variadic items x every named callback (element/index/array); then seeded receivers of length 0..6 (some up to 16) over ints, strings, null, booleans and nested lists. Strings: every text up to length 3 over {a,' ',é} plus seeded texts of 0..12 characters (ASCII and multi-byte) x 10 methods x argument sets (substring: every start/end tuple). Storage aliasing (kind fx): one call of a callback-taking method whose callback prints every argument (element, index, whole array, accumulator, the receiver through a captured reference) at every invocation, decides from the array argument (all keep/reject masks; indexOf / slice+includes / [0] / [$i-2] / [$i+1] readers; returns element / array / nothing), performs effects on its argument, element, a captured copy or the receiver, keeps the argument in an outer variable; afterwards result, receiver, kept argument and kept element are printed, written to one at a time and printed again; in-place methods chained on the returned temporary. Compared with Model.MethStore (result, receiver, invocations) and with an independent simulation of the documented semantics on value-type arrays. non-trivial = non-empty receiver and (arguments or a callback or a mutating method); distinct = distinct concrete case"
 	maxLen := c.N(3, 4)
 	for _, recv := range receivers(maxLen, elemPoolSmall) {
 		r.enumArr(recv)
@@ -1094,6 +1094,17 @@ func Run(c *vh.Ctx) {
 	r.flush()
 	for _, s := range allTexts([]string{"a", " ", "é"}, 3) {
 		r.enumStr(s, c.Rand)
+	}
+	r.flush()
+	c.Res.Exhaustive = true
+	c.Res.ExhaustiveWhat = fmt.Sprintf("arrays: all receivers of length <= %d over 3 element kinds x all methods x all index-argument tuples x 4 variadic item sets x all named callbacks; strings: all texts of length <= 3 over {a, space, é} x all methods x argument sets; traced callbacks: all receivers of length <= %d over 3 element kinds (+7 with repeats) x 9 methods x every keep/reject mask and every array-reading decision x function/arrow form; single effects: all receivers of length <= %d x 9 methods x 4 targets x 11 operations x every invocation, kept argument of every invocation, 4 x 11 post effects, 7 chained methods", maxLen, c.N(3, 4), c.N(2, 3))
+	// seeded
+	for i := 0; i < c.N(60000, 1500000); i++ {
+		r.add(r.randArr(c.Rand))
+	}
+	r.flush()
+	for i := 0; i < c.N(1500, 40000); i++ {
+		r.enumStr(randText(c.Rand, 12, i%2 == 1), c.Rand)
 	}
 	r.flush()
 	// storage aliasing (alias.go): traced callbacks that read every argument, with effects; chained in-place methods
@@ -1114,17 +1125,6 @@ func Run(c *vh.Ctx) {
 	}
 	for _, recv := range receivers(3, elemPoolSmall) {
 		r.enumChains(recv)
-	}
-	r.flush()
-	c.Res.Exhaustive = true
-	c.Res.ExhaustiveWhat = fmt.Sprintf("arrays: all receivers of length <= %d over 3 element kinds x all methods x all index-argument tuples x 4 variadic item sets x all named callbacks; strings: all texts of length <= 3 over {a, space, é} x all methods x argument sets", maxLen)
-	// seeded
-	for i := 0; i < c.N(60000, 1500000); i++ {
-		r.add(r.randArr(c.Rand))
-	}
-	r.flush()
-	for i := 0; i < c.N(1500, 40000); i++ {
-		r.enumStr(randText(c.Rand, 12, i%2 == 1), c.Rand)
 	}
 	r.flush()
 	for i := 0; i < c.N(25000, 500000); i++ {
